@@ -264,6 +264,9 @@ func (fr *frame) binop(op token.Token, t types.Type, x, y value) value {
 		k := kindOf(x)
 		by, ok2 := intBits(y)
 		if !ok2 {
+			if _, isOp := y.(opaque); isOp {
+				inconclusive("inspection of unrendered formatted text")
+			}
 			panic(fmt.Sprintf("binop %s: %T vs %T", op, x, y))
 		}
 		signed := kindSigned(k)
@@ -439,6 +442,12 @@ func (fr *frame) binop(op token.Token, t types.Type, x, y value) value {
 		case token.OR, token.LOR:
 			return x || yb
 		}
+	}
+	if _, ok := x.(opaque); ok {
+		inconclusive("inspection of unrendered formatted text")
+	}
+	if _, ok := y.(opaque); ok {
+		inconclusive("inspection of unrendered formatted text")
 	}
 	panic(fmt.Sprintf("invalid binary op: %T %s %T", x, op, y))
 }
